@@ -1050,7 +1050,8 @@ class Interp:
             return func.vc_call(self, args, kwargs, node)
         # higher-order library functions given a function of the code under analysis (sorted(xs, key=lambda ...), itertools.groupby, map,
         # filter, min/max with key): the library function itself runs for real, calling back into the interpreter for the callable
-        if func in _HIGHER_ORDER and any(isinstance(a, (Closure, BoundMethod)) for a in list(args) + list(kwargs.values())):
+        if (func in _HIGHER_ORDER or isinstance(func, (types.BuiltinMethodType, types.BuiltinFunctionType, types.MethodType))) and callable(func) \
+                and any(isinstance(a, (Closure, BoundMethod)) for a in list(args) + list(kwargs.values())):
             def wrap(f):
                 return (lambda *a, **k: self.call(f, list(a), dict(k), node)) if isinstance(f, (Closure, BoundMethod)) else f
             wa = [wrap(a) for a in args]
